@@ -324,27 +324,27 @@ func (p *RedisProtocol) processBulkString() ([]byte, error) {
 	if l == -1 {
 		return nil, nil
 	}
+	// A bulk string is binary-safe: take exactly l bytes, whatever they are, then CR LF.
 	line := make([]byte, 0)
-	for {
+	for int64(len(line)) < l {
 		err := p.is.ensureFill()
 		if err != nil {
 			return nil, err
 		}
-		b := p.is.Buf[p.is.count]
-		p.is.count++
-		if b == '\r' {
-			err := p.is.ensureFill()
-			if err != nil {
-				return nil, err
-			}
-			c := p.is.Buf[p.is.count]
-			p.is.count++
-			if c != '\n' {
-				return nil, newConnectError("Unexpected character!")
-			}
-			break
-		} else {
-			line = append(line, b)
+		n := int64(p.is.limit - p.is.count)
+		if remaining := l - int64(len(line)); n > remaining {
+			n = remaining
+		}
+		line = append(line, p.is.Buf[p.is.count:p.is.count+int(n)]...)
+		p.is.count += int(n)
+	}
+	for _, expected := range []byte{'\r', '\n'} {
+		b, err := p.is.readByte()
+		if err != nil {
+			return nil, err
+		}
+		if b != expected {
+			return nil, newConnectError("Unexpected character!")
 		}
 	}
 	return line, nil
